@@ -70,6 +70,25 @@ theorem introspect_by_name {doc : Doc} {s : Schema} (h : Accepted doc s) (n : Na
       .ok (((listed doc s.queryType.name).filter (fun t => t.name == n)).flatMap propertyRowsNoDocs) :=
   introspect_byName_eq h.facts n
 
+/-- **`one_of` on `name`** (what the code does): with a `Multiple` candidate `vertex_type_iter`
+yields one vertex per *element* of the argument list, so the rows are one block per element — a name
+listed twice is reported twice (F-C20-1, `one_of_duplicates_rows`). -/
+theorem introspect_one_of {doc : Doc} {s : Schema} (h : Accepted doc s) (ns : List Name) :
+    introspect s (.oneOf ns) =
+      .ok ((ns.flatMap fun n => (listed doc s.queryType.name).filter (fun t => t.name == n)).flatMap
+        propertyRowsNoDocs) :=
+  introspect_oneOf_eq h.facts ns
+
+/-- **`one_of`, partial**: for a duplicate-free argument list the rows are, up to order, those of the
+listed types whose name is in the list — what the `one_of` filter over all vertex types selects. -/
+theorem introspect_one_of_partial {doc : Doc} {s : Schema} (h : Accepted doc s) (ns : List Name)
+    (hnd : ns.Nodup) :
+    ∃ rows, introspect s (.oneOf ns) = .ok rows ∧
+      rows.Perm (((listed doc s.queryType.name).filter (fun t => ns.contains t.name)).flatMap
+        propertyRowsNoDocs) := by
+  refine ⟨_, introspect_one_of h ns, ?_⟩
+  exact (oneOf_blocks_perm _ ns hnd).flatMap_right _
+
 /-- **`implementer`, partial** (F-27): the rows are, up to order, one per pair `(t, x)` where `x` is
 `t` itself or lists `t` in its `implements` — the documented relation (strict subtypes; the
 `implements` lists of a valid schema are transitively closed) plus the reflexive pairs. -/
@@ -128,6 +147,18 @@ def introspectDoc (doc : Doc) (q : QueryId) : Outcome (List Row) :=
 theorem object_type_is_its_own_implementer :
     hasStrRow (introspectDoc small .implementer) "name" "A" "implementer" "A" = true := by decide
 
+/-- Number of rows carrying the two given string cells. -/
+def countStrRows (o : Outcome (List Row)) (k1 v1 k2 v2 : String) : Nat :=
+  match o with
+  | .ok rows => (rows.filter fun r => r.any (fun c => c.1 == k1 && match c.2 with | .str x => x == v1 | _ => false) &&
+      r.any (fun c => c.1 == k2 && match c.2 with | .str x => x == v2 | _ => false)).length
+  | .panic _ => 0
+
+/-- F-C20-1: `one_of ["A", "A"]` reports property `x` of `A` twice, `one_of ["A"]` once. -/
+theorem one_of_duplicates_rows :
+    countStrRows (introspectDoc small (.oneOf ["A", "A"])) "name" "A" "property" "x" = 2 ∧
+    countStrRows (introspectDoc small (.oneOf ["A"])) "name" "A" "property" "x" = 1 := by decide
+
 end Witness
 
 /-- **The adapter contract** on the model of the helpers through which every resolver of the adapter
@@ -175,6 +206,9 @@ end TF.C20
 #print axioms TF.C20.introspect_entrypoints
 #print axioms TF.C20.introspect_entrypoint_params
 #print axioms TF.C20.introspect_by_name
+#print axioms TF.C20.introspect_one_of
+#print axioms TF.C20.introspect_one_of_partial
+#print axioms TF.C20.one_of_duplicates_rows
 #print axioms TF.C20.introspect_implementer_partial
 #print axioms TF.C20.implementer_reports_self
 #print axioms TF.C20.introspect_implementer_documented_false
